@@ -18,6 +18,7 @@ const c17decl = `(struct T [(field A: int64 e:0)])
 (struct S [(field X: int64 e:0) (field N: string e:1) (field F: float64 e:2) (field B: bool e:3) (field L: ([]string) e:4) (field P: (* S) e:5) (field O: T e:6)])
 (def t1 (T A: 1))
 (def c (S X: 1))
+(def pc0 (& c))
 (def other (S X: 2))
 (struct E [])
 (def e1 (E))`
@@ -83,6 +84,11 @@ func c17ops() []c17opT {
 		c17opT{"e1-hset", `(hset e1 big: true)`, false}, c17opT{"e1-infix", `{e1.big = true}`, false},
 		c17opT{"e1-through-pointer", `(hset (* (& e1)) big: true)`, false})
 	ops = append(ops, c17opT{"give-O", `(hset c O: (T A: 3))`, true})
+	// a pointer taken before any redeclaration, used afterwards
+	ops = append(ops, c17opT{"derefset-oldptr/newdecl-shaped", `(derefSet pc0 (S X: "four" N: "n"))`, false},
+		c17opT{"derefset-oldptr/olddecl-shaped", `(derefSet pc0 (S X: 4 N: "n"))`, false},
+		c17opT{"hset-through-oldptr", `(hset (* pc0) X: "s")`, false},
+		c17opT{"derefset-newptr/newdecl-shaped", `(derefSet (& c) (S X: "four" N: "n"))`, false})
 	ops = append(ops, c17opT{"redeclare", `(struct S [(field X: string e:0) (field N: string e:1)])`, false},
 		c17opT{"roundtrip-json", `(def c (unjson (json c)))`, false}, c17opT{"roundtrip-msgpack", `(def c (unmsgpack (msgpack c)))`, false},
 		c17opT{"new-instance", `(def c (S))`, false}, c17opT{"new-instance-N", `(def c (S N: "n"))`, false})
@@ -248,13 +254,8 @@ func c17run(c *engine.Ctx, ops []c17opT, hist []int, record bool) (string, bool)
 		if strings.HasPrefix(op.name, "roundtrip") && r.OK() {
 			version = current
 		}
-		// derefSet replaces the instance wholesale by another one, which brings its own definition along
-		if op.name == "derefset-record/instS" && r.OK() {
-			version = "S" // `other` was created under the first definition
-		}
-		if strings.HasPrefix(op.name, "derefset-newrecord/") && r.OK() {
-			version = current
-		}
+		// derefSet copies another instance's fields into this one: the instance keeps obeying the definition it was
+		// created under (a payload made under another declaration of the same name has to be refused)
 		if last && record {
 			lastName = op.name
 			cls := strings.SplitN(op.name, "/", 2)[0]
